@@ -267,6 +267,8 @@ func init() {
 		RuleK8(r, c)
 		RuleK11(r, c)
 		RuleK14(r, c)
+		RuleK15(r, c)
+		RuleK16(r, c)
 	}
 }
 
